@@ -338,9 +338,16 @@ def _await_write_all(ctx, fut):
 
 @awaiter('write')
 def _await_write(ctx, fut):
-    """AsyncWriteExt::write on the buffered writers used by the repo accepts the whole slice
-    (tokio BufWriter copies any slice shorter than its capacity, 8 KiB); stated as an assumption."""
-    data = BufLoc(ctx.ex, ctx.st, fut.args[1]).val
+    """AsyncWriteExt::write.  On the buffered writers the handshakes use it accepts the whole slice (tokio BufWriter copies any
+    slice shorter than its capacity, 8 KiB; stated as an assumption).  On a stream a spec marks unbuffered (the relay's
+    destination: a raw socket under back-pressure) it takes any 1..=len leading bytes and says how many."""
+    ex, st = ctx.ex, ctx.st
+    data = BufLoc(ex, st, fut.args[1]).val
+    strm, _loc = stream_of(ex, st, fut.args[0])
+    if not getattr(strm, 'buffered', True):
+        n = z3.BitVec(fresh_name('written'), 64)
+        ex.assume(st, z3.And(z3.ULE(n, data.len), z3.Implies(data.len != BV(0, 64), n != BV(0, 64))))
+        data = data.slice(BV(0, 64), n)
     outs = _write(ctx, fut, data)
     return [(s, v if v is not None else mk_result(ctx.ex, ok=Int(data.len, 64, False))) for s, v in outs]
 
@@ -698,6 +705,62 @@ def atomic_fetch_add(ctx):
     old = a.fields[0]
     ctx.ex.store(ctx.st, r.cell, r.path, Agg('Atomic', {0: Int(simp(old.t + ctx.args[1].t), old.bits, old.signed)}))
     ctx.st.trace.append(('atomic.fetch_add', r.cell, r.path))
+    return old
+
+
+def _atomic_bool(ctx, ref):
+    ex, st = ctx.ex, ctx.st
+    v = ex.load(st, ref.cell, ref.path)
+    if not (isinstance(v, Agg) and v.name == 'Atomic' and isinstance(v.fields.get(0), Bool)):
+        v = Agg('Atomic', {0: Bool(z3.Bool(fresh_name('atomic_flag')))})
+        ex.store(st, ref.cell, ref.path, v)
+    return v
+
+
+@contract(r'^(?:std::sync::atomic::)?AtomicBool::new$')
+def atomic_bool_new(ctx):
+    return Agg('Atomic', {0: ctx.args[0]})
+
+
+@contract(r'^<(?:std::sync::atomic::)?AtomicBool as Default>::default$')
+def atomic_bool_default(ctx):
+    return Agg('Atomic', {0: Bool(False)})
+
+
+@contract(r'^(?:std::sync::atomic::)?AtomicBool::(load|store|swap|fetch_or|fetch_and|fetch_xor|compare_exchange|compare_exchange_weak)$')
+def atomic_bool_op(ctx):
+    """sequential semantics of the AtomicBool operations (one task; orderings are irrelevant to a single thread of control)"""
+    op = ctx.callee.rsplit('::', 1)[1]
+    r = ctx.args[0]
+    old = _atomic_bool(ctx, r).fields[0]
+
+    def put(t):
+        ctx.ex.store(ctx.st, r.cell, r.path, Agg('Atomic', {0: Bool(simp(t))}))
+    if op == 'load':
+        return old
+    if op == 'store':
+        put(ctx.args[1].t)
+        return UNIT
+    if op == 'swap':
+        put(ctx.args[1].t)
+        return old
+    if op in ('fetch_or', 'fetch_and', 'fetch_xor'):
+        f = {'fetch_or': z3.Or, 'fetch_and': z3.And, 'fetch_xor': z3.Xor}[op]
+        put(f(old.t, ctx.args[1].t))
+        return old
+    # compare_exchange(current, new, ..): Ok(previous) and the flag becomes `new` iff it held `current`; the weak form may also fail
+    # spuriously, which callers must tolerate by retrying -- modelled as the strong form
+    hit = simp(old.t == ctx.args[1].t)
+    put(z3.If(hit, ctx.args[2].t, old.t))
+    return Agg('Result', {}, simp(z3.If(hit, BV(0, 64), BV(1, 64))), {0: {0: old}, 1: {0: old}}, ctx.ex.si.enums['Result'])
+
+
+@contract(r'^(?:std::sync::atomic::)?Atomic(?:U|I)(?:8|16|32|64|size)::swap$')
+def atomic_swap(ctx):
+    r = ctx.args[0]
+    a = _atomic(ctx, r, _atomic_bits(ctx.callee))
+    old = a.fields[0]
+    ctx.ex.store(ctx.st, r.cell, r.path, Agg('Atomic', {0: ctx.args[1]}))
     return old
 
 
